@@ -569,6 +569,31 @@ class BaseDictObject(dict, BaseObject):
             self.postNotification(self.updateNotificationName, data=dict(other=other))
         self.dirty = True
 
+    # the remaining mutating methods of dict must
+    # not bypass the notifications posted above.
+
+    def pop(self, key, *default):
+        if key not in self:
+            return super(BaseDictObject, self).pop(key, *default)
+        value = self[key]
+        del self[key]
+        return value
+
+    def popitem(self):
+        if not len(self):
+            return super(BaseDictObject, self).popitem()
+        key = next(reversed(self))
+        return key, self.pop(key)
+
+    def setdefault(self, key, default=None):
+        if key not in self:
+            self[key] = default
+        return self[key]
+
+    def __ior__(self, other):
+        self.update(other)
+        return self
+
     # -----------------------------
     # Serialization/Deserialization
     # -----------------------------
